@@ -15,7 +15,7 @@ def run(ctx):
               label="oracle = Vpsc.tla fix-point on every wall-free chain; not moved when there is room")
     ctx.model("MCChain", "MCChain_walls_q.cfg" if quick else "MCChain_walls.cfg", workers=core.NCPU, heap="4g",
               label="oracle KKT with walls")
-    recs, meta, errors = lc.gather(ctx, ["random", "dense", "bounds", "centi", "sibling", "relayout", "direct"])
+    recs, meta, errors = lc.gather(ctx, ["random", "dense", "bounds", "centi", "sibling", "far", "relayout", "direct"])
     lc.report_errors(ctx, errors, "C02_")
     lc.check(ctx, "LayoutC02.cfg", recs, meta, "C02_", per_shard=100)
     ctx.evaluations += len(recs)
